@@ -330,6 +330,35 @@ def rule_r3(chk, p, t):
         ok = len(regs) == 2 and len(imps) == 1 and unparse(imps[0].args[0]) == "self.clock.datetime_epoch" and all(c.lineno < imps[0].lineno for c in regs)
         tic = find_calls(step.node, "ticToc")
         ok = ok and tic and tic[0].lineno < imps[0].lineno
+        from rsa.util import parents_map
+
+        pm = parents_map(step.node)
+        for c in regs + [x for x in find_calls(step.node, "PropagateRegistration")]:
+            loops = []
+            cur = c
+            while cur in pm:
+                cur = pm[cur]
+                if isinstance(cur, ast.For):
+                    loops.append(cur)
+            if not loops or not isinstance(loops[0].target, ast.Name):
+                continue
+            lp = loops[0]
+            var = lp.target.id
+            cons = f"{step.qualname}:dispatch:{unparse(lp.iter)}:{call_name(c)}"
+            arg = unparse(c.args[0]) if c.args else None
+            ifs = []
+            cur = c
+            while cur in pm and pm[cur] is not lp:
+                cur = pm[cur]
+                if isinstance(cur, ast.If):
+                    ifs.append(cur)
+            foreign = sorted({n.id for i in ifs for n in ast.walk(i.test) if isinstance(n, ast.Name) and n.id != var and n.id not in ("self",) and any(isinstance(o, ast.For) and o is not lp and isinstance(o.target, ast.Name) and o.target.id == n.id for o in ast.walk(step.node))})
+            rt = [i for i in ifs if any(isinstance(n, ast.Attribute) and n.attr == "realtime" for n in ast.walk(i.test))]
+            own = rt and all(isinstance(n.value, ast.Name) and n.value.id == var for i in rt for n in ast.walk(i.test) if isinstance(n, ast.Attribute) and n.attr == "realtime")
+            if arg != var or foreign or not own:
+                r.violation(cons, f"dispatch:{arg}:{foreign}:{bool(own)}", f"in the loop over `{unparse(lp.iter)}` the agent `{var}` is dispatched as `{unparse(c)[:60]}` under a test of {foreign or 'another object'}: whether an agent is propagated or imported must depend on that agent's own `realtime` flag (a leaked variable of an earlier loop decides for all of them)", step.loc(c))
+            else:
+                r.ok(cons, f"`{var}` dispatched on its own realtime flag", step.loc(c))
         if ok:
             r.ok(step.qualname + ":import", "targets and sensors registered, then imported at the new epoch", step.loc(imps[0]))
         else:
@@ -377,6 +406,59 @@ def rule_r4(chk, p, t):
             r.violation(lio.qualname + ":return", f"return:{unparse(rv)[:80]}", "not every imported observation is returned with metadata", lio.loc(rets[0]))
 
     r.guard("imported-observations", one)
+
+    def dedup():
+        require(lio is not None, "loadImportedObservations not found", eng.node)
+        cfg = cfg_of(lio)
+        apps = [c for c in find_calls(lio.node, "append") if unparse(c.func.value) == "imported_observations"]
+        require(len(apps) >= 1, "no append to imported_observations", lio.node)
+        defs = single_defs(lio.node)
+
+        def key_attrs(e, depth=0):
+            out = set()
+            if isinstance(e, ast.Name) and e.id in defs and depth < 4:
+                return key_attrs(defs[e.id], depth + 1)
+            for n in ast.walk(e):
+                if isinstance(n, ast.Attribute) and isinstance(n.ctx, ast.Load):
+                    out.add(n.attr)
+                if isinstance(n, ast.Name) and n is not e and n.id in defs and depth < 4:
+                    out |= key_attrs(defs[n.id], depth + 1)
+                if isinstance(n, ast.Call) and depth < 4:
+                    for tg in t.callees(n, lio):
+                        if isinstance(tg, FunctionInfo):
+                            for rt in walk_no_nested(tg.node):
+                                if isinstance(rt, ast.Return) and rt.value is not None:
+                                    out |= {x.attr for x in ast.walk(rt.value) if isinstance(x, ast.Attribute)}
+                                    sub = single_defs(tg.node)
+                                    for x in ast.walk(rt.value):
+                                        if isinstance(x, ast.Name) and x.id in sub:
+                                            out |= {y.attr for y in ast.walk(sub[x.id]) if isinstance(y, ast.Attribute)}
+            return out
+
+        for a in apps:
+            node = cfg.node_of(a)
+            conds = [(cfg.nodes[cid], lab) for cid, lab in cfg.control_conditions(node.id) if cfg.nodes[cid].kind == "cond"]
+            cons = lio.qualname + ":dedup"
+            if not conds:
+                r.ok(cons, "every imported observation is kept", lio.loc(a))
+                continue
+            bad = []
+            for cn, lab in conds:
+                tst = cn.ast
+                if isinstance(tst, ast.Compare) and len(tst.ops) == 1 and ((isinstance(tst.ops[0], ast.NotIn) and lab is True) or (isinstance(tst.ops[0], ast.In) and lab is False)):
+                    attrs = key_attrs(tst.left)
+                    if "target_id" not in attrs:
+                        bad.append(f"the duplicate key `{unparse(tst.left)[:60]}` (fields {sorted(attrs)[:6]}) does not contain the observation's target_id: two targets observed by one sensor at one epoch collapse into one, and the second target's filter never gets its observation")
+                    elif not (attrs & {"sensor_id", "pos_x_km", "sensor_eci"}):
+                        bad.append(f"the duplicate key `{unparse(tst.left)[:60]}` does not identify the sensor: two sensors observing one target collapse into one")
+                else:
+                    bad.append(f"an imported observation is kept only under `{unparse(tst)[:60]}`")
+            if bad:
+                r.violation(cons, "dedup:" + ";".join(b[:40] for b in bad), "; ".join(bad), lio.loc(a))
+            else:
+                r.ok(cons, "only exact duplicates (same sensor position and same target) are dropped", lio.loc(a))
+
+    r.guard("imported-observations-dedup", dedup)
 
     # remote-handle typing
     def handles():
